@@ -3,6 +3,7 @@ package rules
 import (
 	"fmt"
 	"go/token"
+	"go/types"
 	"strings"
 
 	"golang.org/x/tools/go/ssa"
@@ -36,38 +37,78 @@ func runC15(c *Ctx) {
 	r.Rule("R15-stop", "the search ends by itself exactly when the iteration depth equals the depth limit, or a mate within the searched depth was found, both tested after publication; Analyze supplies the engine's default depth when the request has none", 3)
 	r.Rule("R15-hard", "for every colour and movestogo setting the hard limit is k*(R/D) with D >= k, hence <= the remaining time R of the side to move; the timer is armed with the hard limit and halts the same handle", 5)
 
-	process := c.fn("R15-loop", "pkg/search/searchctl", "handle", "process")
-	halt := c.fn("R15-halt", "pkg/search/searchctl", "handle", "Halt")
+	h := newHandleModel(c, "R15-loop")
 	limits := c.fn("R15-hard", "pkg/search/searchctl", "TimeControl", "Limits")
 	enforce := c.fn("R15-hard", "pkg/search/searchctl", "", "EnforceTimeControl")
-	if process == nil || halt == nil || limits == nil || enforce == nil {
+	if h == nil || limits == nil || enforce == nil {
 		return
 	}
-	c.guard("R15-loop", func() { c15Loop(c, process, halt) })
+	c.guard("R15-loop", func() { c15Loop(c, h) })
 	c.guard("R15-hard", func() { c15Hard(c, limits, enforce) })
 }
 
-func c15Loop(c *Ctx, process, halt *ssa.Function) {
-	r := c.R
-	where := c.pos(process.Pos())
-	// the Search invoke and the depth phi
-	var search *ssa.Call
-	for _, b := range process.Blocks {
-		for _, ins := range b.Instrs {
-			if call, ok := ins.(*ssa.Call); ok && call.Call.IsInvoke() && call.Call.Method.Name() == "Search" {
-				search = call
+// edgeGuards lists the branch edges that every path to b must take (edge dominance), nearest first.
+func edgeGuards(b *ssa.BasicBlock) []guardEdge {
+	var res []guardEdge
+	cur := b
+	for d := cur.Idom(); d != nil; d = d.Idom() {
+		if ifi, ok := d.Instrs[len(d.Instrs)-1].(*ssa.If); ok && len(d.Succs) == 2 && d.Succs[0] != d.Succs[1] {
+			switch {
+			case onEdge(d, 0, cur):
+				res = append(res, guardEdge{ifi.Cond, true})
+			case onEdge(d, 1, cur):
+				res = append(res, guardEdge{ifi.Cond, false})
 			}
 		}
 	}
-	if search == nil {
-		r.Undecided("R15-loop", "iteration loop", where, "", "no root.Search call in the controller")
+	return res
+}
+
+// callBehind finds the call (static callee or interface method named name) a value is computed
+// from, looking through conversions and tuple extraction.
+func callBehind(v ssa.Value, name string) *ssa.Call {
+	for i := 0; i < 6; i++ {
+		switch x := v.(type) {
+		case *ssa.Convert:
+			v = x.X
+		case *ssa.ChangeType:
+			v = x.X
+		case *ssa.Extract:
+			v = x.Tuple
+		case *ssa.Call:
+			if x.Call.IsInvoke() && x.Call.Method.Name() == name {
+				return x
+			}
+			if f := x.Call.StaticCallee(); f != nil && (f.Name() == name || strings.HasPrefix(f.Name(), name+"[")) {
+				return x
+			}
+			if f := x.Call.StaticCallee(); f != nil && f.Origin() != nil && f.Origin().Name() == name {
+				return x
+			}
+			return nil
+		default:
+			return nil
+		}
+	}
+	return nil
+}
+
+func c15Loop(c *Ctx, h *handleModel) {
+	r := c.R
+	process, halt := h.process, h.halt
+	where := c.pos(process.Pos())
+	searches := evsOf(h.proc, hvSearch)
+	if len(searches) != 1 {
+		r.Undecided("R15-loop", "iteration loop", where, "", fmt.Sprintf("%d root Search calls in the controller (expected 1)", len(searches)))
 		return
 	}
-	depthV := search.Call.Args[3]
+	sev := searches[0]
+	search := sev.Val.(*ssa.Call)
+	depthV := sev.frame.resolve(search.Call.Args[3])
 	phi, isPhi := depthV.(*ssa.Phi)
 	loopBad := ""
-	if !isPhi {
-		loopBad = "the depth passed to Search is not a loop variable: " + pathExpr(depthV)
+	if !isPhi || phi.Parent() != process {
+		loopBad = "the depth passed to Search is not the controller's loop variable: " + pathExpr(depthV)
 	} else {
 		iv, ok := inductionVar(phi)
 		if !ok || !iv.InitIsC || iv.InitC != 1 || iv.Step != 1 {
@@ -77,131 +118,170 @@ func c15Loop(c *Ctx, process, halt *ssa.Function) {
 			loopBad = "depth has more than one back edge"
 		}
 	}
-	// the PV literal
-	var pvAlloc *ssa.Alloc
-	pvFields := map[string]string{}
-	for _, fs := range allFieldStores(c.P) {
-		if fs.Fn != process || fs.Named == nil || fs.Named.Obj().Name() != "PV" || fs.Whole {
-			continue
-		}
-		if al, ok := isFreshAlloc(fs.Base); ok {
-			pvAlloc = al
-			pvFields[fs.Field] = pathExpr(fs.Instr.(*ssa.Store).Val)
+	// the reported PV: Depth is the loop variable, Nodes/Score/Moves are results #0/#1/#2 of that Search call
+	got := map[string]bool{}
+	for _, e := range evsOf(h.proc, hvPVField) {
+		v := e.frame.resolve(e.Val)
+		switch e.Field.Name() {
+		case "Depth":
+			got["Depth"] = v == depthV
+		case "Nodes", "Score", "Moves":
+			want := map[string]int{"Nodes": 0, "Score": 1, "Moves": 2}[e.Field.Name()]
+			if ex, ok := v.(*ssa.Extract); ok && ex.Tuple == ssa.Value(search) && ex.Index == want {
+				got[e.Field.Name()] = true
+			} else {
+				got[e.Field.Name()] = false
+			}
 		}
 	}
-	sc := pathExpr(search)
-	want := map[string]string{"Depth": pathExpr(depthV), "Nodes": sc + "#0", "Score": sc + "#1", "Moves": sc + "#2"}
-	for f, w := range want {
-		if pvFields[f] != w {
-			loopBad = joinNonEmpty(loopBad, fmt.Sprintf("reported PV.%s = %s, expected %s", f, pvFields[f], w))
+	for _, f := range []string{"Depth", "Nodes", "Score", "Moves"} {
+		if !got[f] {
+			loopBad = joinNonEmpty(loopBad, fmt.Sprintf("reported PV.%s is not taken from this iteration (depth variable / result of the Search call)", f))
 		}
 	}
 	r.Check(loopBad == "", "R15-loop", "iteration counter and reported PV", where, "", loopBad)
 
-	// order in the success path: store h.pv (between Lock/Unlock) < send on out < init.Close()
-	var storeAt, sendAt, initCloseAt, lockAt, unlockAt ssa.Instruction
-	var allInitClose []ssa.Instruction
-	var stopTests []*ssa.If
-	for _, b := range process.Blocks {
-		for _, ins := range b.Instrs {
-			switch x := ins.(type) {
-			case *ssa.Store:
-				if strings.HasSuffix(pathExpr(x.Addr), "h.pv") {
-					storeAt = ins
-				}
-			case *ssa.Send:
-				if _, isParam := x.Chan.(*ssa.Parameter); isParam || strings.Contains(pathExpr(x.Chan), "out") {
-					sendAt = ins
-				}
-			case *ssa.Call:
-				if x.Call.IsInvoke() && x.Call.Method.Name() == "Close" && strings.Contains(pathExpr(x.Call.Value), "h.init") {
-					if initCloseAt == nil {
-						initCloseAt = ins // the first signal in program order is the one that counts
-					}
-					allInitClose = append(allInitClose, ins)
-				}
-				if f := x.Call.StaticCallee(); f != nil && f.String() == "(*sync.Mutex).Lock" && storeAt == nil {
-					lockAt = ins
-				}
-				if f := x.Call.StaticCallee(); f != nil && f.String() == "(*sync.Mutex).Unlock" && storeAt != nil && unlockAt == nil {
-					unlockAt = ins
-				}
+	// publication order on the success path: store (under the mutex) < send < first-iteration signal
+	stores, sends := evsOf(h.proc, hvStorePV), evsOf(h.proc, hvSend)
+	signals := h.closes(h.proc, h.initF, false)
+	pubBad := ""
+	switch {
+	case len(stores) == 0 || len(sends) == 0 || len(signals) == 0:
+		pubBad = fmt.Sprintf("publication steps not found (store=%v send=%v signal=%v)", len(stores) > 0, len(sends) > 0, len(signals) > 0)
+	default:
+		for _, n := range sends {
+			if !someBefore(stores, n) {
+				pubBad = "the PV is sent before (or without) being stored for Halt"
+			}
+		}
+		for _, sg := range signals {
+			if !someBefore(stores, sg) || !someBefore(sends, sg) {
+				pubBad = "a first-iteration signal is given before the PV is stored and reported"
+			}
+		}
+		for _, s := range stores {
+			if !h.underLock(h.proc, s) {
+				pubBad = "the PV is stored without holding the mutex"
 			}
 		}
 	}
-	pubBad := ""
-	switch {
-	case storeAt == nil || sendAt == nil || initCloseAt == nil:
-		pubBad = fmt.Sprintf("publication steps not found (store=%v send=%v signal=%v)", storeAt != nil, sendAt != nil, initCloseAt != nil)
-	case !instrDominates(storeAt, sendAt):
-		pubBad = "the PV is sent before (or without) being stored for Halt"
-	case !instrDominates(sendAt, initCloseAt) || !instrDominates(storeAt, initCloseAt):
-		pubBad = "the first-iteration signal is given before the PV is stored and reported"
-	case !allDominatedBy(storeAt, sendAt, allInitClose):
-		pubBad = "a first-iteration signal is given before the PV is stored and reported"
-	case lockAt == nil || unlockAt == nil || !instrDominates(lockAt, storeAt) || !instrDominates(storeAt, unlockAt):
-		pubBad = "the PV is stored without holding the mutex"
-	}
-	// a failed iteration reaches none of them: the store is dominated by the err == nil edge of the Search call
+	// a failed iteration reaches none of them: each store lies on the err == nil side of a test of
+	// the error this iteration's Search returned
 	if pubBad == "" {
-		okEdge := false
-		cur := storeAt.Block()
-		for cur != nil {
-			d := cur.Idom()
-			if d == nil {
-				break
-			}
-			if ifi, ok := d.Instrs[len(d.Instrs)-1].(*ssa.If); ok {
-				if bo, ok := ifi.Cond.(*ssa.BinOp); ok && bo.Op == token.NEQ {
-					if ex, ok := bo.X.(*ssa.Extract); ok && ex.Tuple == ssa.Value(search) && ex.Index == 3 {
-						if onEdge(d, 1, cur) {
+		for _, s := range stores {
+			okEdge := false
+			for _, ge := range edgeGuards(s.topIns().Block()) {
+				bo, ok := ge.cond.(*ssa.BinOp)
+				if !ok || !(bo.Op == token.NEQ && !ge.pol || bo.Op == token.EQL && ge.pol) {
+					continue
+				}
+				for _, side := range []ssa.Value{bo.X, bo.Y} {
+					if types.Identical(side.Type(), types.Universe.Lookup("error").Type()) {
+						if ex, ok := side.(*ssa.Extract); ok && ex.Tuple == ssa.Value(search) {
+							okEdge = true
+						} else if c.provenance(process, side).via("Search") {
 							okEdge = true
 						}
 					}
 				}
 			}
-			cur = d
-		}
-		if !okEdge {
-			pubBad = "a failed or halted iteration can still publish its PV"
+			if !okEdge {
+				pubBad = "a failed or halted iteration can still publish its PV"
+			}
 		}
 	}
-	_ = pvAlloc
 	r.Check(pubBad == "", "R15-publish", "each completed iteration is published before it is reported and signalled", where, "", pubBad)
 
-	// Halt
+	// Halt: wait for the first-iteration signal, close quit, read the PV under the mutex
+	waits := evsOf(h.hlt, hvWait)
+	var waitInit []flatEv
+	for _, w := range waits {
+		if w.Field == h.initF {
+			waitInit = append(waitInit, w)
+		}
+	}
+	closeQuit := h.closes(h.hlt, h.quitF, false)
+	loads := evsOf(h.hlt, hvLoadPV)
 	var steps []string
-	for _, b := range halt.Blocks {
-		for _, ins := range b.Instrs {
-			switch x := ins.(type) {
-			case *ssa.UnOp:
-				if x.Op == token.ARROW && strings.Contains(pathExpr(x.X), "h.init") {
-					steps = append(steps, "wait")
+	for _, e := range h.hlt {
+		n := e.Kind
+		if e.Field != nil && (e.Kind == hvWait || e.Kind == hvClose) {
+			n += ":" + map[*types.Var]string{h.initF: "first-iteration", h.quitF: "quit"}[e.Field]
+		}
+		steps = append(steps, n)
+	}
+	haltBad := ""
+	switch {
+	case len(waitInit) == 0:
+		haltBad = "Halt does not wait for the first-iteration signal"
+	case len(closeQuit) == 0:
+		haltBad = "Halt does not close quit"
+	case len(loads) == 0:
+		haltBad = "Halt does not read the published PV"
+	}
+	if haltBad == "" {
+		for _, q := range closeQuit {
+			if !someBefore(waitInit, q) {
+				haltBad = "Halt closes quit before (or without) waiting for the first completed iteration"
+			}
+		}
+		for _, l := range loads {
+			if !someBefore(waitInit, l) || !someBefore(closeQuit, l) {
+				haltBad = joinNonEmpty(haltBad, "Halt reads the PV before it has waited and closed quit")
+			}
+		}
+		for _, w := range waitInit {
+			if !mustReturnThrough(w.topIns()) {
+				haltBad = joinNonEmpty(haltBad, "Halt can return without having waited for the first completed iteration")
+			}
+		}
+		// the mutex is not held while waiting: the publisher needs it to store the PV that precedes the signal
+		for _, w := range waitInit {
+			for _, l := range evsOf(h.hlt, hvLock) {
+				if !flatBefore(l, w) {
+					continue
 				}
-				if x.Op == token.MUL && strings.HasSuffix(pathExpr(x.X), "h.pv") {
-					steps = append(steps, "read")
+				released := false
+				for _, u := range evsOf(h.hlt, hvUnlock) {
+					if !u.Deferred && flatBefore(l, u) && flatBefore(u, w) {
+						released = true
+					}
 				}
-			case *ssa.Call:
-				if x.Call.IsInvoke() && x.Call.Method.Name() == "Close" && strings.Contains(pathExpr(x.Call.Value), "h.quit") {
-					steps = append(steps, "closequit")
-				}
-				if f := x.Call.StaticCallee(); f != nil && f.String() == "(*sync.Mutex).Lock" {
-					steps = append(steps, "lock")
+				if !released {
+					haltBad = joinNonEmpty(haltBad, "Halt waits for the first-iteration signal while holding the mutex the publisher needs")
 				}
 			}
 		}
 	}
-	r.Check(strings.Join(steps, ",") == "wait,closequit,lock,read", "R15-halt", "Halt waits, closes quit, then reads under the mutex", c.pos(halt.Pos()), "", "steps: "+strings.Join(steps, ","))
-	r.Check(strings.Join(steps, ",") == "wait,closequit,lock,read", "R15-publish", "Halt reads the PV under the mutex", c.pos(halt.Pos()), "", "steps: "+strings.Join(steps, ","))
+	r.Check(haltBad == "", "R15-halt", "Halt waits, closes quit, then reads under the mutex", c.pos(halt.Pos()), "", joinNonEmpty(haltBad, "steps: "+strings.Join(steps, ",")))
+	lockBad := ""
+	for _, l := range loads {
+		if !h.underLock(h.hlt, l) {
+			lockBad = "Halt reads the PV without holding the mutex"
+		}
+	}
+	if len(loads) == 0 {
+		lockBad = "Halt does not read the published PV"
+	}
+	r.Check(lockBad == "", "R15-publish", "Halt reads the PV under the mutex", c.pos(halt.Pos()), "", joinNonEmpty(lockBad, "steps: "+strings.Join(steps, ",")))
 	// quit closed nowhere else in the package
 	var other []string
 	for _, fn := range c.P.AllFuncs {
 		if fn.Pkg != process.Pkg && (fn.Parent() == nil || fn.Parent().Pkg != process.Pkg) {
 			continue
 		}
+		inHalt := fn == halt
+		for _, e := range h.hlt {
+			if e.Ins.Parent() == fn {
+				inHalt = true
+			}
+		}
+		if inHalt {
+			continue
+		}
 		for _, b := range fn.Blocks {
 			for _, ins := range b.Instrs {
-				if call, ok := ins.(ssa.CallInstruction); ok && call.Common().IsInvoke() && call.Common().Method.Name() == "Close" && strings.Contains(pathExpr(call.Common().Value), ".quit") && fn != halt {
+				if call, ok := ins.(ssa.CallInstruction); ok && call.Common().IsInvoke() && call.Common().Method.Name() == "Close" && fieldOfValue(call.Common().Value) == h.quitF {
 					other = append(other, c.P.FuncName(fn))
 				}
 			}
@@ -209,48 +289,96 @@ func c15Loop(c *Ctx, process, halt *ssa.Function) {
 	}
 	r.Check(len(other) == 0, "R15-halt", "quit is closed only by Halt", c.pos(halt.Pos()), "", strings.Join(other, ", "))
 
-	// R15-stop: tests after publication
+	// R15-stop: the two self-termination tests, after publication, leaving the loop when true
 	stopBad := ""
-	depthTest, mateTest := false, false
+	depthTest, mateTest, mateOnScore := false, false, false
+	var limitParam ssa.Value
+	loopHeader := (*ssa.BasicBlock)(nil)
+	if isPhi {
+		loopHeader = phi.Block()
+	}
+	leavesLoop := func(b *ssa.BasicBlock) bool {
+		if loopHeader == nil {
+			return false
+		}
+		return !reachableFrom(b, map[*ssa.BasicBlock]bool{})[loopHeader]
+	}
 	for _, b := range process.Blocks {
 		ifi, ok := b.Instrs[len(b.Instrs)-1].(*ssa.If)
 		if !ok {
 			continue
 		}
-		e := pathExpr(ifi.Cond)
-		isDepth := strings.Contains(e, "DepthLimit") || (strings.Contains(e, "V(") && strings.Contains(e, "=="))
-		isMate := strings.Contains(e, "MateDistance")
-		if !isDepth && !isMate {
+		bo, ok := ifi.Cond.(*ssa.BinOp)
+		if !ok {
 			continue
 		}
-		stopTests = append(stopTests, ifi)
-		if initCloseAt != nil && !instrDominates(initCloseAt, ifi) {
-			stopBad = joinNonEmpty(stopBad, "a self-termination test precedes the publication of the iteration: "+e)
+		x, y := stripConv(bo.X), stripConv(bo.Y)
+		var other ssa.Value
+		depthOnLeft := false
+		switch {
+		case x == depthV:
+			other, depthOnLeft = bo.Y, true
+		case y == depthV:
+			other = bo.X
+		default:
+			continue
 		}
-		if bo, ok := ifi.Cond.(*ssa.BinOp); ok {
-			if isDepth && bo.Op == token.EQL && strings.Contains(pathExpr(bo.X)+pathExpr(bo.Y), "phi:depth") {
-				depthTest = true
+		afterPub := false
+		for _, sg := range signals {
+			if len(sg.Chain) == 0 && instrDominates(sg.Ins, ifi) || len(sg.Chain) > 0 && instrDominates(sg.Chain[0], ifi) && flatBefore(sg, flatEv{Ins: ifi}) {
+				afterPub = true
 			}
-			if isMate && (bo.Op == token.LEQ || bo.Op == token.GEQ) && strings.Contains(pathExpr(bo.X)+pathExpr(bo.Y), "phi:depth") {
+		}
+		if v := callBehind(other, "V"); v != nil && bo.Op == token.EQL {
+			// uint(depth) == limit, limit from the request's optional depth limit
+			pv := c.provenance(process, other)
+			if leavesLoop(b.Succs[0]) && !leavesLoop(b.Succs[1]) {
+				depthTest = true
+				limitParam = v
+				_ = pv
+				if !afterPub {
+					stopBad = joinNonEmpty(stopBad, "the depth-limit test precedes the publication of the iteration")
+				}
+			}
+			continue
+		}
+		if md := callBehind(other, "MateDistance"); md != nil {
+			// mate distance <= depth  (or depth >= mate distance), leaving the loop when true
+			good := (!depthOnLeft && bo.Op == token.LEQ) || (depthOnLeft && bo.Op == token.GEQ)
+			if good && leavesLoop(b.Succs[0]) && !leavesLoop(b.Succs[1]) {
 				mateTest = true
+				if !afterPub {
+					stopBad = joinNonEmpty(stopBad, "the forced-mate test precedes the publication of the iteration")
+				}
+				recv := md.Call.Args
+				if md.Call.IsInvoke() {
+					recv = []ssa.Value{md.Call.Value}
+				}
+				if len(recv) > 0 {
+					rv := recv[0]
+					if u, ok := rv.(*ssa.UnOp); ok && u.Op == token.MUL {
+						// spilled receiver copy
+						var defs []ssa.Value
+						resolveDefs(rv, map[ssa.Value]bool{}, &defs)
+						if len(defs) == 1 {
+							rv = defs[0]
+						}
+					}
+					if ex, ok := rv.(*ssa.Extract); ok && ex.Tuple == ssa.Value(search) && ex.Index == 1 {
+						mateOnScore = true
+					}
+				}
 			}
 		}
 	}
+	_ = limitParam
 	if !depthTest {
-		stopBad = joinNonEmpty(stopBad, "no test 'iteration depth == depth limit'")
+		stopBad = joinNonEmpty(stopBad, "no test 'iteration depth == depth limit' that ends the search")
 	}
 	if !mateTest {
-		stopBad = joinNonEmpty(stopBad, "no test 'mate distance <= iteration depth'")
+		stopBad = joinNonEmpty(stopBad, "no test 'mate distance <= iteration depth' that ends the search")
 	}
 	r.Check(stopBad == "", "R15-stop", "self-termination on depth limit and forced mate, after publication", where, "", stopBad)
-	// mate test uses the score of this iteration
-	mateOnScore := false
-	for _, ifi := range stopTests {
-		e := pathExpr(ifi.Cond)
-		if strings.Contains(e, "MateDistance("+pathExpr(search)+"#1)") {
-			mateOnScore = true
-		}
-	}
 	r.Check(mateOnScore, "R15-stop", "the mate test looks at the score just searched", where, "", "")
 	// Analyze default depth
 	if an := c.P.Func("pkg/engine", "Engine", "Analyze"); an != nil {
